@@ -470,6 +470,8 @@ def doPut (st : St) (cTok bTok implRes wsTok : String) : St × Verdict :=
               if c.inst < sp.next ∧ sp.first ≤ c.inst ∧ c.chain = .ok ∧ wsS = "-" then (st', .ok "put:stale")
               else (st', .oracle s!"C09-inadmissible-accepted put {cTok} inst={c.inst} next={sp.next} accepted (writes: {wsS})")
             else if wsS ≠ "-" then (st', .oracle s!"C09-rejected-put-wrote put {cTok} => {implRes} but wrote {wsS}")
+            else if c.inst < sp.next ∧ sp.first ≤ c.inst ∧ c.chain = .ok then
+              (st', .oracle s!"C09-stale-reput-rejected put {cTok} inst={c.inst} (already stored, next={sp.next}) => {implRes}; re-submitting a stored instance must be a no-op")
             else (st', .ok s!"put:{branch}")
           | some _, _ => (st', .ok s!"put:{branch}:nospec")
       (stF, pick dm vF)
@@ -703,6 +705,9 @@ def step (st : St) (line : String) : St × Verdict :=
         | _, _, _ => (st, .bad "robs: parse")
       | [] => (st, .bad "robs: empty")
     | _, _ => (st, .bad "robs: args")
+  | ["conc", _, "=>", r] =>
+    if r = "ok" then (st, .ok "conc:ok")
+    else (st, .oracle s!"C09-concurrent a reader / subscriber running beside the writer observed: {r}")
   | ["cbegin", kind] => ({ st with crash := some { kind := kind } }, .skip)
   | ["cfork"] =>
     let w := st.main
